@@ -226,7 +226,7 @@ Proof.
       * apply scal_agrees_nil. apply has_sub_scalars. exact Hnp.
     + intros r o Hin Ho. eapply sel_items_plain; eauto.
     + exact Hsel.
-    + rewrite Hf, Hm. reflexivity.
+    + rewrite Hf. cbv beta iota. unfold row in *. rewrite Hm. reflexivity.
   - exact I.
-  - exfalso. eapply sel_rows_no_err; eauto.
+  - exfalso. eapply (sel_rows_no_err db [] items (Some p) T); eauto.
 Qed.
